@@ -428,3 +428,45 @@ M2('c06-create-scope-port-converted-only-for-the-server-pair', 'C06', 'R20', [
     {'file': _TH, 'old': "        scope['server'] = iter([host, port])\n", 'new': "        scope['server'] = iter([host, int(port)])\n"}])
 M('c06-create-environ-port-string-not-normalised', 'C06', 'R20', _TH,
   "        port_str = str(int(port))\n", "        int(port)\n        port_str = str(port)\n")
+
+# ------------------------------------------------------------------ preserving wave 3: refactoring + break
+_QS_TRY = ("        try:\n            self.query_string = env['QUERY_STRING']\n        except KeyError:\n            self.query_string = ''\n"
+           "            self._params: Dict[str, Union[str, List[str]]] = {}\n        else:\n            if self.query_string:\n"
+           "                self._params = parse_query_string(\n                    self.query_string,\n"
+           "                    keep_blank=self.options.keep_blank_qs_values,\n                    csv=self.options.auto_parse_qs_csv,\n"
+           "                )\n\n            else:\n                self._params = {}\n")
+
+
+def _qs_precheck(read):
+    return ("        self.query_string = " + read + "\n        if self.query_string:\n"
+            "            self._params: Dict[str, Union[str, List[str]]] = parse_query_string(\n                self.query_string,\n"
+            "                keep_blank=self.options.keep_blank_qs_values,\n                csv=self.options.auto_parse_qs_csv,\n"
+            "            )\n        else:\n            self._params = {}\n")
+
+
+# k3-c06-1 (try/except KeyError -> membership pre-check in a conditional expression) with the pre-check on the wrong key:
+# the subscript is no longer guarded, KeyError escapes the WSGI constructor only
+M('c06-wsgi-query-string-precheck-tests-another-key', 'C06', 'R2', 'falcon/request.py', _QS_TRY,
+  _qs_precheck("env['QUERY_STRING'] if 'REQUEST_METHOD' in env else ''"), also=('C04',))
+# ... with the arms of the conditional expression swapped (`not in` kept the body arm): the read runs exactly when the key is missing
+M('c06-wsgi-query-string-precheck-arms-swapped', 'C06', 'R2', 'falcon/request.py', _QS_TRY,
+  _qs_precheck("env['QUERY_STRING'] if 'QUERY_STRING' not in env else ''"), also=('C04',))
+# ... with a fall-back that is not the blank string: a request without QUERY_STRING has a non-empty req.query_string on WSGI
+M('c06-wsgi-query-string-precheck-falls-back-to-question-mark', 'C06', 'R13', 'falcon/request.py', _QS_TRY,
+  _qs_precheck("env['QUERY_STRING'] if 'QUERY_STRING' in env else '?'"))
+# k3-c06-2 (root-path normalisation extracted into _normalize_root_path) with create_environ no longer normalising
+_NORM_HELPER = ("def _normalize_root_path(root_path: str) -> str:\n    if root_path and not root_path.startswith('/'):\n"
+                "        return '/' + root_path\n\n    return root_path\n\n\n")
+_SCOPE_ROOT = ("        if root_path and not root_path.startswith('/'):\n            scope['root_path'] = '/' + root_path\n"
+               "        else:\n            scope['root_path'] = root_path\n")
+_ENV_ROOT = ("    root_path = root_path or app or ''\n\n    # NOTE(kgriffs): Judging by the algorithm given in PEP-3333 for\n"
+             "    # reconstructing the URL, SCRIPT_NAME is expected to contain a\n    # preceding slash character.\n"
+             "    if root_path and not root_path.startswith('/'):\n        root_path = '/' + root_path\n")
+M2('c06-root-path-helper-applied-by-create-scope-only', 'C06', 'R19', [
+    {'file': _TH, 'old': _SCOPE_ROOT, 'new': "        scope['root_path'] = _normalize_root_path(root_path)\n"},
+    {'file': _TH, 'old': _ENV_ROOT, 'new': "    root_path = root_path or app or ''\n"},
+    {'file': _TH, 'old': "def _make_cookie_values(cookies: CookieArg) -> str:\n", 'new': _NORM_HELPER + "def _make_cookie_values(cookies: CookieArg) -> str:\n"}])
+M2('c06-root-path-helper-applied-by-create-environ-only', 'C06', 'R19', [
+    {'file': _TH, 'old': _SCOPE_ROOT, 'new': "        scope['root_path'] = root_path\n"},
+    {'file': _TH, 'old': _ENV_ROOT, 'new': "    root_path = _normalize_root_path(root_path or app or '')\n"},
+    {'file': _TH, 'old': "def _make_cookie_values(cookies: CookieArg) -> str:\n", 'new': _NORM_HELPER + "def _make_cookie_values(cookies: CookieArg) -> str:\n"}])
